@@ -450,6 +450,14 @@ class Check:
             self.regen[name] = {"gen": regen[0], "nmax": regen[1], "impl": impl, "oracle": oracle, "skip": skip,
                                 "timeout": per_case_timeout, "fresh": fresh}
         results = pmap(impl, cases, per_case_timeout, fresh=fresh)
+        # a case that exceeded its timer while all workers were busy is run again on its own, with six times the allowance:
+        # only a case that does not finish then either counts as not terminating
+        slow = [i for i, r in enumerate(results) if isinstance(r, dict) and r.get("outcome") == "hang"]
+        for i in slow[:40]:
+            results[i] = run_forked(impl, cases[i], 6 * per_case_timeout)
+        if slow:
+            st["retried_after_timeout"] = len(slow)
+            st["still_not_terminating"] = sum(1 for i in slow if results[i].get("outcome") == "hang")
         keep = []
         for i, (c, r) in enumerate(zip(cases, results)):
             if r is None or (isinstance(r, dict) and str(r.get("outcome", "")).startswith("harness-error")):
